@@ -16,7 +16,7 @@ func init() {
 			"A failing operand is attributed to the recorded finding 'broadcast-backward-mean' only if its shape is right and its value equals the reference tape run with BroadcastRule=Avg (mean over the copies) while differing from the sum; everything else is a VIOLATION. " +
 			"Non-trivial: some tracked operand has expansion factor > 1; distinct = (op, operand shapes, tracked subset).",
 		Assumptions: []string{"operand values unique per position, divisors away from 0; upstream weighting non-uniform so that mean-over-copies, sum-over-copies and reductions over a wrong dimension all differ"},
-		FloorQuick:  3000, FloorThor: 30000,
+		FloorQuick:  6000, FloorThor: 50000,
 		Run: runC07,
 	})
 }
@@ -122,7 +122,7 @@ func runC07(c *fw.Ctx) {
 		}
 	}
 	// ---- sampled high-rank pairs ----
-	for i := 0; i < c.Pick(1000, 10000); i++ {
+	for i := 0; i < c.Pick(5000, 50000); i++ {
 		c.Case(func(k *fw.K) {
 			dst := RandShape(k.Rng, 4, 6, 3)
 			prs := batchPairs(dst)
